@@ -25,7 +25,7 @@ structure CallDecl where
 deriving Repr
 
 inductive Instr
-  | new (k : Nat) | poll (k : Nat) | await (k : Nat) | drop (k : Nat) | wait | yield
+  | new (k : Nat) | poll (k : Nat) | await (k : Nat) | drop (k : Nat) | wait | yield | task (n : Nat)
 deriving DecidableEq, Repr
 
 inductive Dir
@@ -144,6 +144,11 @@ def execInstr (calls : List CallDecl) (s : Sys) : Instr → Sys × BodyRes
       (s', if s'.panicked then .stop else .next)
   | .wait => (s.emit [Ev.suspend], .suspend false)
   | .yield => ({ s with woken := true }.emit [Ev.yieldNow], .suspend false)
+  | .task n =>
+    -- cabi modes: the body continues under harness task `n` (same C-ABI version)
+    match s.env.cur with
+    | some t => ({ s with env := { s.env with cur := some ⟨n, t.version⟩ } }.emit [Ev.setTask n], .next)
+    | none => (s.emit [Ev.setTaskSkip n], .next)
 
 /-- drop every remaining call future in slot order (end of the body, or the body future dropped) -/
 def dropAll (calls : List CallDecl) (s : Sys) : Nat → Nat → Sys
@@ -175,17 +180,21 @@ def runDirsCabi (s : Sys) : List Dir → Sys × Bool × List Dir
     runDirsCabi ({ s with host := h }.emit e) ds
   | .dlv k :: ds =>
     let h := s.host.callHandle k
-    if h ≠ 0 ∧ s.env.regs.contains (TID, h) ∧ s.host.hasEvent h then
-      match s.host.takeEvent h with
-      | none => (s.emit [Ev.dlvSkip k], false, ds)       -- unreachable: `hasEvent`
-      | some (code, host') =>
-        let s1 := { s with host := host', env := { s.env with regs := s.env.regs.filter (· != (TID, h)) } }.emit [Ev.dlv h code]
+    -- the task (lowest id first) whose map holds a registration for this waitable
+    let holder := (s.env.regs.filter (·.2 == h)).foldl (fun acc p => match acc with
+      | none => some p.1
+      | some t => some (min t p.1)) none
+    if h ≠ 0 ∧ holder.isSome ∧ s.host.hasEvent h then
+      match s.host.takeEvent h, holder with
+      | some (code, host'), some tid =>
+        let s1 := { s with host := host', env := { s.env with regs := s.env.regs.filter (· != (tid, h)) } }.emit [Ev.dlv h code]
         match s1.slots k with
         | none => ({ s1 with panicked := true }.emit [Ev.panic], true, ds)
         | some f =>
           match s1.absorb (f.wake code) with
           | (s2, none) => (s2, true, ds)
           | (s2, some f') => ({ s2 with slots := setSlot s2.slots k (some f') }, true, ds)
+      | _, _ => (s.emit [Ev.dlvSkip k], false, ds)       -- unreachable: `hasEvent`, `holder.isSome`
     else runDirsCabi (s.emit [Ev.dlvSkip k]) ds
 
 /-- the executor loop of `run_cabi` -/
